@@ -106,6 +106,61 @@ func c12ConcScenarios() ([]*sched.Scenario, error) {
 			}
 		}
 	}
+	// the ledger's row in _system.ledgers is also written by requests that are not ledger
+	// writes: PUT /v2/{ledger}/metadata (system controller UpdateLedgerMetadata) concurrent
+	// with the first write. Whatever the interleaving, once the write is accepted the state
+	// is in-use and a later import (ids after the write's) is refused. (Seeded change C12b:
+	// the metadata update became read-modify-write of the whole row and wrote a stale state
+	// back.)
+	for _, mode := range c12Modes() {
+		mode := mode
+		later := srcLogs[mode.Name][1:]
+		scs = append(scs, &sched.Scenario{
+			Name: "ledger-metadata-update-vs-first-write-then-import/" + mode.Name, Base: boot, Threads: 2,
+			New: func(w *world.World) ([]func(ctx context.Context), any) {
+				st := &c12ConcState{path: "metadata-update"}
+				c1, err := w.Sys.GetLedgerController(context.Background(), mode.Dst)
+				if err != nil {
+					panic(err)
+				}
+				return []func(ctx context.Context){
+					func(ctx context.Context) {
+						st.importErr = w.Sys.UpdateLedgerMetadata(ctx, mode.Dst, map[string]string{"owner": "ops"})
+					},
+					func(ctx context.Context) { st.single = applyRecover(ctx, c1, writeOp) },
+				}, st
+			},
+			Check: func(ctx context.Context, w *world.World, state any, run *sched.Run) [][2]string {
+				st := state.(*c12ConcState)
+				var out [][2]string
+				if st.importErr != nil {
+					out = append(out, [2]string{"conc:ledger-metadata-update-failed", fmt.Sprintf("UpdateLedgerMetadata: %v", st.importErr)})
+				}
+				if !st.single.OK() {
+					out = append(out, [2]string{"conc:write-failed:beside-metadata-update", fmt.Sprintf("first write failed: %v", st.single.Err)})
+					return out
+				}
+				if s, err := ledgerState(ctx, w, mode.Dst); err == nil && s != ledger.StateInUse {
+					out = append(out, [2]string{"conc:state-not-in-use:after-metadata-update", fmt.Sprintf("a write was accepted but _system.ledgers.state = %q after a concurrent ledger metadata update", s)})
+				}
+				// a fresh stack (no cached ledger row) tries the import a pristine ledger would accept
+				w2 := world.Attach(w.PG)
+				defer w2.Close()
+				c2, err := w2.Sys.GetLedgerController(ctx, mode.Dst)
+				if err != nil {
+					return append(out, [2]string{"read:controller", err.Error()})
+				}
+				if err := importLogs(ctx, c2, later); err == nil {
+					out = append(out, [2]string{"conc:import-after-write:accepted:after-metadata-update", fmt.Sprintf("a write was accepted (log %d), then an import of logs %d.. was accepted too", *st.single.Log.ID, *later[0].ID)})
+				}
+				return out
+			},
+			Outcome: func(state any) string {
+				st := state.(*c12ConcState)
+				return fmt.Sprintf("meta=%v write=%s", st.importErr == nil, st.single.Class)
+			},
+		})
+	}
 	return scs, nil
 }
 
